@@ -134,7 +134,7 @@ PROPS["C07"] = dict(
          "distinct_nontrivial = values enumerated once by construction in sweeps (counter) + hash-set count of sampled 64-bit cases",
     assumptions=COMMON_ASSUME + ["oracle order is Go's native comparison plus Signbit/IsNaN for floats; nothing from keys.go"],
     floors=lambda t: ["chain_values_uint8", "chain_values_int16", "chain_values_float32", "chain_values_uint32", "chain_values_int32", "boundary_pairs_float64", "boundary_pairs_int64",
-                      "random_pairs_uint64", "random_pairs_float64", "random_pairs_int", "random_pairs_uint", "tuple_pairs", "all_pairs_uint8", "all_pairs_int8"],
+                      "random_pairs_uint64", "random_pairs_float64", "random_pairs_int", "random_pairs_uint", "tuple_pairs", "all_pairs_uint8", "all_pairs_int8", "append_onto_encoding_probes"],
     distinct_counter="distinct_by_construction",
     exhaustive_note="exhaustive flags per unit are in closed_universes_exhaustive; in thorough every 8/16/32-bit domain is enumerated completely, 64-bit domains are sampled",
     technique="oracle monitor over executions of the exported codecs: exhaustive sweeps for <=32 bit, boundary/random pairs for 64 bit",
@@ -187,7 +187,7 @@ PROPS["C17"] = dict(
     rule="one process per kind; tree of 1000 keys; HeapAlloc after two forced collections before/after each isolated phase of N operations: every query method on its own (present/absent search, absent delete, extremes, full and abandoned All/Backward/TopK/BottomK/Range/Prefix), overwrites, delete/re-insert of the same keys, sliding window of fresh keys; "
          "limit = 256 KiB + 0.5 B/op; goroutine count compared; after deleting everything the heap must be within 64 KiB of a newly created tree. distinct_nontrivial = kinds measured",
     assumptions=COMMON_ASSUME + ["leaks below about 0.5 B/op and off-heap memory are invisible"],
-    floors=lambda t: ["ops_search_present", "ops_overwrite", "ops_delete_reinsert_same_keys", "ops_prefix", "ops_range_narrow", "ops_topk_abandoned", "delete_all_checks"],
+    floors=lambda t: ["ops_search_present", "ops_overwrite", "ops_delete_reinsert_same_keys", "ops_prefix", "ops_range_narrow", "ops_topk_abandoned", "delete_all_checks", "ops_keys_from_large_buffers"],
     technique="heap monitor: live heap after forced GC against byte/operation thresholds",
 )
 PROPS["C18"] = dict(
